@@ -182,12 +182,24 @@ static std::string tableWire(const ops::EquationOptions& eq) {
 
 static void chk(const std::string& name, const std::string& bad) { emit("c12 chk " + name, bad.empty() ? "1" : "0:" + nosp(bad)); }
 
-static void judgeSynthesis(const RSForm& a, const RSForm& b, const ops::EquationOptions& eq, bool likeWithLike, vh::Rng& /*rng*/) {
+static void judgeSynthesis(const RSForm& a, const RSForm& b, const ops::EquationOptions& eq, bool likeWithLike, vh::Rng& rng) {
   const std::string before1 = dumpForm(a), before2 = dumpForm(b);
   if (std::getenv("VERIF_TRACE") != nullptr) {
     std::string eqs;
     for (const auto& [k, v] : eq) eqs += (a.Contains(k) ? a.GetRS(k).alias : std::to_string(k)) + "=" + (b.Contains(v) ? b.GetRS(v).alias : std::to_string(v)) + ",";
     fprintf(stderr, "TRACE synth A[%s]B[%s]EQ[%s]\n", before1.c_str(), before2.c_str(), eqs.c_str());
+  }
+  // identifiers the merge re-issues for operand-2 constituents whose uid is taken in operand 1: learnt from a probe merge
+  // under the same generator seed (hook ccl::verif::Seed), so that the Lean model is given exactly the uids the
+  // implementation will draw
+  const auto uidSeed = static_cast<uint32_t>(rng.next());
+  std::string freshUids;
+  {
+    ccl::verif::Seed(uidSeed);
+    RSForm probe = a;
+    const auto mtr = probe.Ops().MergeWith(b);
+    for (const auto uid : b.List()) if (mtr.ContainsKey(uid) && mtr(uid) != uid) { if (!freshUids.empty()) freshUids += ","; freshUids += std::to_string(mtr(uid)); }
+    ccl::verif::Seed(uidSeed);
   }
   ops::BinarySynthes synth{ a, b, eq };
   const bool defined = synth.IsCorrectlyDefined();
@@ -199,7 +211,7 @@ static void judgeSynthesis(const RSForm& a, const RSForm& b, const ops::Equation
   }
   // the whole synthesis against the Lean model (BinarySynthes = merge, translate the table, equate or delete
   // duplicates, reset aliases, substitute the translations)
-  emit("c12 synthM " + nosp(dumpFormK(a)) + " " + nosp(dumpFormK(b)) + " " + tableWire(eq) + " - " + (defined ? "acc" : "ref"),
+  emit("c12 synthM " + nosp(dumpFormK(a)) + " " + nosp(dumpFormK(b)) + " " + tableWire(eq) + " " + (freshUids.empty() ? "-" : freshUids) + " " + (defined ? "acc" : "ref"),
        (defined && res) ? trWire(synth.Translations().at(0)) + " " + trWire(synth.Translations().at(1)) + " " + nosp(dumpFormK(*res)) : std::string("refused"));
   chk("operands-untouched", (before1 == dumpForm(a) && before2 == dumpForm(b)) ? "" : "operand modified");
   if (!defined) { chk("refused-gives-nothing", res == nullptr ? "" : "result although refused"); return; }
@@ -318,6 +330,29 @@ static void synthesisCase(vh::Rng& rng) {
       }
     }
     judgeSynthesis(a, b, eq, true, rng);
+  }
+  // operands that SHARE identifiers (two versions of one schema, or a part copied out of the other operand: the merge
+  // re-issues the colliding uids) with pairs the synthesis has to turn round (a derived constituent of operand 1 equated
+  // with a base notion of operand 2) - seeded change C12-4: the turned key was no longer translated to its result id
+  {
+    RSForm b2;
+    for (const auto uid : a.List()) if (rng.chance(2, 3)) b2.InsertCopy(uid, a.Core());
+    const auto extraBase = b2.Emplace(CstType::base);
+    std::vector<uint32_t> derivedA, notionsB;
+    for (const auto uid : a.List()) { const auto t = a.GetRS(uid).type; if (t == CstType::structured || t == CstType::term) derivedA.push_back(uid); }
+    for (const auto uid : b2.List()) { const auto t = b2.GetRS(uid).type; if (t == CstType::base || t == CstType::constant || t == CstType::structured) notionsB.push_back(uid); }
+    ops::EquationOptions eq;
+    const int want = rng.range(1, 2);
+    for (int tries = 0; tries < 8 && static_cast<int>(std::size(eq)) < want && !derivedA.empty() && !notionsB.empty(); ++tries) {
+      const auto k = rng.pick(derivedA), v = rng.chance(1, 3) ? extraBase : rng.pick(notionsB);
+      if (eq.ContainsKey(k) || eq.ContainsValue(v)) continue;
+      eq.Insert(k, v, ops::Equation{ static_cast<ops::Equation::Mode>(rng.range(1, 3)), "turned" });
+    }
+    if (!std::empty(eq)) judgeSynthesis(a, b2, eq, false, rng);
+    // and base with base between the two versions (the same uid on both sides)
+    ops::EquationOptions eq2;
+    for (const auto uid : ga.bases) if (b2.Contains(uid) && rng.chance(1, 2)) eq2.Insert(uid, uid, ops::Equation{ static_cast<ops::Equation::Mode>(rng.range(1, 3)), "same" });
+    if (!std::empty(eq2)) judgeSynthesis(a, b2, eq2, false, rng);
   }
   // arbitrary (mostly inadmissible) table
   {
